@@ -213,6 +213,42 @@ func benign(enc *json.Encoder, paths []string) {
 							}
 						}
 					}
+				case *ast.ForStmt:
+					// for cond { body }  ->  for { if !(cond) { break }; body }   (no init/post: continue still re-tests cond)
+					if x.Init == nil && x.Post == nil && x.Cond != nil {
+						emit(x, "for {\nif !("+text(x.Cond)+") {\nbreak\n}\n"+body(x.Body)+"}", "loop condition as leading break")
+					}
+				case *ast.ReturnStmt:
+					if nres == 1 && len(x.Results) == 1 {
+						if be, ok := x.Results[0].(*ast.BinaryExpr); ok {
+							if be.Op == token.LAND {
+								emit(x, "if "+text(be.X)+" {\nreturn "+text(be.Y)+"\n}\nreturn false", "return a && b as if")
+							}
+							if be.Op == token.LOR {
+								emit(x, "if "+text(be.X)+" {\nreturn true\n}\nreturn "+text(be.Y), "return a || b as if")
+							}
+						}
+					}
+				case *ast.CaseClause:
+					// case A, B: body  ->  case A: body; case B: body
+					if len(x.List) >= 2 && len(x.Body) > 0 && !hasBareBreak(x.Body) {
+						hasDecl := false
+						for _, st := range x.Body {
+							if _, ok := st.(*ast.LabeledStmt); ok {
+								hasDecl = true
+							}
+						}
+						if !hasDecl {
+							var sb strings.Builder
+							for i, e := range x.List {
+								if i > 0 {
+									sb.WriteString("\n")
+								}
+								sb.WriteString("case " + text(e) + ":\n" + stmts(x.Body))
+							}
+							emit(x, sb.String(), "split multi-value case")
+						}
+					}
 				case *ast.SwitchStmt:
 					if x.Init != nil || x.Body == nil || len(x.Body.List) == 0 {
 						return true
